@@ -52,6 +52,7 @@ type profile struct {
 	pBigPayload  float64
 	pBinary      float64
 	pPreEncoded  float64
+	pBroadcast   float64
 	pNoCompress  float64
 	pCB          float64
 	clientSends  int
@@ -78,7 +79,7 @@ type profile struct {
 
 func baseProfile() profile {
 	return profile{faultFree: 0.5, maxClients: 2, pPolling: 0.7, pWT: 0.3, pEIO3: 0.2, pB64: 0.2, pJSONP: 0.1,
-		pUpgrade: 0.5, pCandScript: 0.12, pSecondCand: 0.3, senders: 2, sendsMax: 8, pBigPayload: 0.08, pBinary: 0.3, pPreEncoded: 0.1, pNoCompress: 0.15, pCB: 0.3,
+		pUpgrade: 0.5, pCandScript: 0.12, pSecondCand: 0.3, senders: 2, sendsMax: 8, pBigPayload: 0.08, pBinary: 0.3, pPreEncoded: 0.1, pBroadcast: 0.04, pNoCompress: 0.15, pCB: 0.3,
 		clientSends: 4, pAppClose: 0.15, pServerClose: 0.05, pClientFault: 0.3, pClientClose: 0.1, pSilence: 0.1, pLatePong: 0.1,
 		pReent: 0, pCompression: 0.5, pPMD: 0.2, pCookie: 0.2, pCors: 0.15, pInitial: 0.15, smallHB: 0.6, pHttpServer: 0.3, fragP: 0.3,
 		horizonLo: 800, horizonHi: 4000}
@@ -89,6 +90,7 @@ func profileFor(prop string) profile {
 	switch prop {
 	case "C01":
 		p.faultFree, p.senders, p.sendsMax, p.pUpgrade = 0.7, 3, 12, 0.6
+		p.pBroadcast, p.maxClients = 0.12, 3
 		p.pAppClose, p.pServerClose = 0.05, 0.02
 		p.hot = []string{"socket.sendPacket", "socket.flush", "polling.Send", "polling.send", "polling.onPollRequest", "websocket.send", "websocket.Send", "webTransport.send", "socket.MaybeUpgrade", "polling.write", "polling.DoWrite"}
 	case "C02":
@@ -392,7 +394,7 @@ func GenSession(prop string, seed uint64, thorough bool) *Scenario {
 				}
 			}
 			if c.CandKind != "" {
-				c.Cand = genCandScript(g, ut)
+				c.Cand = genCandScript(g, ut, c.LatencyMs, !sc.FaultFree)
 				// a script that ends up switching (probe ... upgrade with nothing else in between) must get there
 				// before the upgrade timeout closes the candidate under it: its pauses share ut - 150 ms - latency
 				clean, probeSeen, sum := true, false, 0
@@ -401,7 +403,7 @@ func GenSession(prop string, seed uint64, thorough bool) *Scenario {
 					case "probe":
 						probeSeen = true
 					case "upgrade":
-						if clean && probeSeen {
+						if clean && probeSeen && op.Arg != "attimeout" {
 							for j := 0; j <= k; j++ {
 								sum += c.Cand[j].WaitMs
 							}
@@ -547,6 +549,16 @@ func GenSession(prop string, seed uint64, thorough bool) *Scenario {
 				op.Opt = "nocompress"
 			} else if g.p(p.pPreEncoded) && !o.PMD {
 				op.Opt = "preencoded"
+			}
+			if len(sc.Clients) >= 2 && g.p(p.pBroadcast) {
+				// the same message, with one shared options object (and pre-encoded frame), to every session
+				op.Op, op.Sess, op.ID, op.SlowMs = "broadcast", "", fmt.Sprintf("bc.%s.%d", task, k), 0
+				if op.Opt == "" && !o.PMD && g.p(0.6) {
+					op.Opt = "preencoded"
+				}
+				if op.Chars == "uni" {
+					op.Chars = "html"
+				}
 			}
 			sc.App = append(sc.App, op)
 		}
@@ -721,7 +733,78 @@ func GenSession(prop string, seed uint64, thorough bool) *Scenario {
 			}
 		}
 	}
+	// C02 (and C08's no-loss clause): a data request with two messages whose dispatch is held up by a slow message
+	// listener, and an impatient client: it submits a further message on a data request of its own, or switches to
+	// its upgrade candidate and submits the message there, while the first request is still being served. Whatever
+	// the server makes of that, what it delivers must keep the order of submission.
+	if (prop == "C02" || prop == "C08") && !sc.FaultFree && g.p(0.3) {
+		for ci := range sc.Clients {
+			c := &sc.Clients[ci]
+			if c.Transport != "polling" || c.Upgrade != "" || len(c.Cand) > 0 || len(c.Raw) > 0 || c.CloseAtMs > 0 || c.StopAtMs > 0 {
+				continue
+			}
+			ms := g.pick(10, 30, 80)
+			for ms > 5 && ms+4*c.LatencyMs+c.PollGapMs+maxInt(c.PongDelayMs) >= pt/2 {
+				ms /= 2
+			}
+			if ms+4*c.LatencyMs+c.PollGapMs+maxInt(c.PongDelayMs) >= pt/2 || ms < 4 {
+				continue
+			}
+			t := g.rng(150, sc.HorizonMs/2)
+			var keep []ClientMsg
+			for _, m := range c.Sends {
+				// nothing else of this client's is on its way around the window
+				if m.AtMs < t-4*c.LatencyMs-20 || m.AtMs > t+ms+6*c.LatencyMs+20 {
+					keep = append(keep, m)
+				}
+			}
+			c.Sends = append(keep, ClientMsg{AtMs: t, ID: c.Name + ".slow", Size: 10}, ClientMsg{AtMs: t, ID: c.Name + ".slowb", Size: 10})
+			nth := 1
+			for _, m := range c.Sends {
+				if m.AtMs < t {
+					nth++
+				}
+			}
+			sc.Reent = append(sc.Reent, ReentSpec{Event: "message", Call: "sleep", Ms: ms, Sess: c.Name, Nth: nth})
+			arrive := t + c.LatencyMs
+			if (wsOK || wtOK) && o.AllowUpgrades && c.LatencyMs*5 < ms-2 && g.p(0.6) {
+				// the candidate's upgrade packet arrives 5 latencies after the candidate was opened
+				c.CandKind = "websocket"
+				if !wsOK || (wtOK && c.EIO == 4 && g.p(0.3)) {
+					c.CandKind = "webtransport"
+				}
+				if c.CandKind == "webtransport" && c.EIO != 4 {
+					continue
+				}
+				c.Cand = []CandOp{{Op: "probe"}, {Op: "waitpong"}, {Op: "upgrade", Arg: "nopause"}, {Op: "msg", Arg: c.Name + ".after", WaitMs: g.pick(0, 1, (ms-5*c.LatencyMs)/2)}}
+				c.CandAtMs = arrive + 1
+			} else {
+				c.Faults = append(c.Faults, FaultSpec{AtMs: arrive + g.pick(1, ms/2, ms-1), Kind: "late-post"})
+			}
+			break
+		}
+	}
 	sc.Policy, sc.HotFuncs = genPolicy(g, p.hot, 4000*nc+2000)
+	impatient := false
+	for _, c := range sc.Clients {
+		for _, f := range c.Faults {
+			impatient = impatient || f.Kind == "late-post"
+		}
+		for _, op := range c.Cand {
+			impatient = impatient || op.Arg == "nopause"
+		}
+	}
+	// (not next to an impatient client: the order of two submissions on different connections is defined only as
+	// long as the server's handlers take no time - a stalled handler is a delayed request)
+	if prop == "C08" && !sc.FaultFree && !impatient && g.p(0.3) {
+		// stalled tasks: a pre-empted task loses a few virtual milliseconds, so timers fall due in the middle of a
+		// handler (the candidate's upgrade timeout inside the switch, the check tick inside a flush)
+		sc.Policy.StallMs = g.pick(1, 3, 10)
+		sc.Policy.StallP = 0.01
+		if sc.Policy.Kind == "fifo" || sc.Policy.Kind == "pct" {
+			sc.Policy.StallP = 0.5
+		}
+	}
 	sc.MaxSteps = 60000
 	if thorough {
 		sc.MaxSteps = 400000 // longer horizons, more clients
@@ -781,7 +864,7 @@ func genClientFaults(g *G, p *profile, sc *Scenario, c *ClientSpec, pi, pt int) 
 // packets, probes that are never followed up (upgrade timeout), repeated probes, a proper probe
 // followed by something else than 'upgrade', disconnects at every stage, and the conformant
 // sequence with unusual pauses.
-func genCandScript(g *G, upgradeTimeoutMs int) []CandOp {
+func genCandScript(g *G, upgradeTimeoutMs, latMs int, tie bool) []CandOp {
 	var s []CandOp
 	other := func() CandOp {
 		switch g.IntN(7) {
@@ -805,7 +888,18 @@ func genCandScript(g *G, upgradeTimeoutMs int) []CandOp {
 	if long > 3000 {
 		long = g.pick(400, 1500)
 	}
-	switch g.IntN(10) {
+	kind := g.IntN(11)
+	if kind == 10 && !tie {
+		kind = 6 // (a race against the timeout has two legal outcomes, one of which costs the client its connection)
+	}
+	switch kind {
+	case 10: // the conformant sequence, its upgrade packet arriving around the instant the upgrade timeout is due
+		// (the candidate is 4 latencies old when it has its pong: opening, acceptance, probe, pong)
+		w := upgradeTimeoutMs - 4*latMs + g.pick(-5, -2, -1, -1, 0, 0, 1)
+		if w < 0 {
+			w = 0
+		}
+		s = append(s, CandOp{Op: "probe"}, CandOp{Op: "waitpong"}, CandOp{Op: "upgrade", WaitMs: w, Arg: "attimeout"})
 	case 0: // unexpected first packet
 		s = append(s, other())
 	case 1: // silent candidate: the upgrade timeout has to clean up
